@@ -97,8 +97,18 @@ def vals(r):
     return out
 
 
+def alias_words():
+    cfg = C.json.load(open(C.REPO + "/src/json/config.json", encoding="utf-8"))
+    return sorted(a for a in cfg["currency_alias"] if a.isalpha() and a.isascii())
+
+
 def base_text(rng):
     k = rng.random()
+    if k < 0.12:
+        # currency ALIAS words (tl, dollar, kroner, ...), not only ISO codes
+        a, b = rng.choice(alias_words()), rng.choice(alias_words())
+        return rng.choice([f"{L.num(rng)} {a}", f"{L.num(rng)} usd to {a}", f"{L.num(rng)} {a} to {b}", f"{L.num(rng)} {a} + {L.num(rng)} {b}",
+                           f"10% of {L.num(rng)} {a}"]), set()
     if k < 0.55:
         return L.value_line(rng), set()
     names = rng.sample(L.NAMES, 2)
